@@ -12,3 +12,6 @@ pub use gob::decode_gob;
 pub use macroblock::decode_macroblock;
 pub use picture::decode_picture;
 pub use reader::H263Reader;
+
+#[cfg(feature = "verif-hooks")]
+pub use vlc::{Entry, Table};
